@@ -248,6 +248,32 @@ class C14(Check):
                             out.fail("C14." + ("new-to-old" if tag == "old" else "old-to-new"), "%s: value %r written by the %s writer after other writers had been given the same object: %s, reference %s" % (k, snap, tag, data.hex(), ref_bytes.hex()), "relay-bytes")
                             break
                 out.shapes.append(digest([appended, k.rsplit(".", 3)[-3]]))
+            # history: in the OLD node's directory the file of D is replaced in place by the other revision (the container files
+            # are not touched) and the directory is read again in the same process: the containers now nest the new revision
+            from ..model.render import render
+            old.world.write(uo.file_of(dkey), render(un.defs[dkey], None)[0])
+            ri0 = uo.root_of[dkey]
+            res2 = old.world.run_read({"op": "rn", "root": {"p": uo.roots[ri0]["dir"]}, "lookups": [{"p": r0["dir"]} for i0, r0 in enumerate(uo.roots) if i0 != ri0], "key": None, "cwd": ""})
+            out.stats["revised_in_place:" + old.world.mtime_policy] += 1
+            if not res2["ok"]:
+                out.fail("C14.api", "after D was replaced in place by the other revision the directory is rejected: %s: %s" % (type(res2["exc"]).__name__, str(res2["exc"])[:300]), "inplace-rejected:" + type(res2["exc"]).__name__)
+            else:
+                t2 = {str(t): t for t in res2["direct"]}
+                for k in containers:
+                    if k not in t2 or k not in new.types:
+                        continue
+                    rng = random.Random(scn["value_seed"] * 31 + len(k))
+                    v = V.gen_composite(rng, un.res.sec(k, 0), in_range=True, p_omit=0.0)
+                    try:
+                        data = pydsdl.serialize(new.types[k], v)
+                        want = R.norm(R.decode(un.res, k, 0, data))
+                        got2 = R.norm(pydsdl.deserialize(t2[k], data))
+                        again = pydsdl.serialize(t2[k], v)
+                    except Exception as ex:
+                        out.fail("C14.new-to-old", "%s: after D was replaced in place by the other revision and the directory was read again, value %r of the new revision: %s: %s" % (k, v, type(ex).__name__, str(ex)[:200]), "inplace-raised:" + type(ex).__name__)
+                        continue
+                    if got2 != want or again != data:
+                        out.fail("C14.new-to-old", "%s: after D was replaced in place by the other revision and the directory was read again, the container still behaves like the old revision: reads %r, expected %r" % (k, got2, want), "inplace-stale")
             out.stats["containers"] += len(containers)
             out.obs.append([len(containers), out.stats["messages:old-to-new"]])
         finally:
